@@ -66,7 +66,7 @@ func c11ParamFlow(e *Env) {
 				for _, ref := range *al.Referrers() {
 					if fa, isFA := ref.(*ssa.FieldAddr); isFA && ir.FieldNameOf(fa.X.Type(), fa.Field) == "Params" {
 						for _, r2 := range *fa.Referrers() {
-							if st, isS := r2.(*ssa.Store); isS && e.IsFieldRead(st.Val, nil, "Body.Params") {
+							if st, isS := r2.(*ssa.Store); isS && e.IsFieldReadAll(st.Val, "Body.Params") {
 								ok = true
 							}
 						}
@@ -504,22 +504,46 @@ func c11OutputVisibility(e *Env) {
 			}
 		}
 	}
+	isShare := func(in ssa.Instruction) bool {
+		st, isS := in.(*ssa.Store)
+		if !isS {
+			return false
+		}
+		fa, isFA := st.Addr.(*ssa.FieldAddr)
+		return isFA && ir.FieldNameOf(fa.X.Type(), fa.Field) == "OutputVariables" && e.IsFieldRead(st.Val, nil, outMap)
+	}
+	// a helper that installs the map on the node it is given, whatever else it does
+	// (`g.addNode(node)`): the store is on every path through it
+	var installs func(h *ssa.Function, d int) bool
+	installs = func(h *ssa.Function, d int) bool {
+		if h == nil || !e.P.Funcs[h] || h.Blocks == nil || d > 2 {
+			return false
+		}
+		bad, _ := ir.Bypass(nil, h.Blocks[0], ir.PathQuery{
+			Stop: func(in ssa.Instruction) bool {
+				if isShare(in) {
+					return true
+				}
+				c, ok := in.(*ssa.Call)
+				return ok && c.Call.StaticCallee() != nil && installs(c.Call.StaticCallee(), d+1)
+			},
+			Bad: ir.IsReturn})
+		return bad == nil
+	}
 	sharedStore := func(f *ssa.Function, what string) {
 		ok := false
 		for _, g := range ir.WithClosures(f) {
 			for _, b := range g.Blocks {
 				for _, in := range b.Instrs {
-					st, isS := in.(*ssa.Store)
-					if !isS {
+					// inside a loop over the nodes/steps: the store itself, or a call of a helper that makes it
+					if ir.InnermostLoop(ir.Loops(g), b) == nil {
 						continue
 					}
-					if fa, isFA := st.Addr.(*ssa.FieldAddr); isFA && ir.FieldNameOf(fa.X.Type(), fa.Field) == "OutputVariables" {
-						if e.IsFieldRead(st.Val, nil, outMap) {
-							// inside a loop over the nodes/steps
-							if ir.InnermostLoop(ir.Loops(g), b) != nil {
-								ok = true
-							}
-						}
+					if isShare(in) {
+						ok = true
+					}
+					if c, isC := in.(*ssa.Call); isC && c.Call.StaticCallee() != nil && installs(c.Call.StaticCallee(), 0) {
+						ok = true
 					}
 				}
 			}
@@ -841,6 +865,42 @@ func c11Drain(e *Env, ex *ssa.Function) {
 							case "Write", "WriteString", "WriteByte", "WriteRune", "ReadFrom", "Reset", "Grow", "Truncate":
 								continue
 							}
+							// a method of the capture object itself (`captured.wait()`): inside it every
+							// read of the buffer comes after a channel receive
+							if hc := cc.StaticCallee(); e.P.Funcs[hc] && hc.Blocks != nil {
+								var recvs, reads []ssa.Instruction
+								for _, bb := range hc.Blocks {
+									for _, in := range bb.Instrs {
+										if u, isU := in.(*ssa.UnOp); isU && u.Op == token.ARROW {
+											recvs = append(recvs, u)
+										}
+										if c2, isC := in.(*ssa.Call); isC && c2.Call.StaticCallee() != nil && c2.Call.Signature().Recv() != nil && len(c2.Call.Args) > 0 {
+											if fa, isF := c2.Call.Args[0].(*ssa.FieldAddr); isF && ir.Resolve(fa.X) == ssa.Value(hc.Params[0]) {
+												switch c2.Call.StaticCallee().Name() {
+												case "Write", "WriteString", "WriteByte", "WriteRune", "ReadFrom", "Reset", "Grow", "Truncate":
+												default:
+													reads = append(reads, c2)
+												}
+											}
+										}
+									}
+								}
+								inner := true
+								for _, rd := range reads {
+									okR := false
+									for _, rv := range recvs {
+										if ir.Precedes(rv, rd) {
+											okR = true
+										}
+									}
+									if !okR {
+										inner = false
+									}
+								}
+								if inner && ir.Precedes(run, rc) && (len(reads) == 0 || len(recvs) > 0) {
+									continue
+								}
+							}
 							recvBefore := false
 							for _, bb := range ex.Blocks {
 								for _, in := range bb.Instrs {
@@ -1007,5 +1067,37 @@ func c11Recorder(e *Env) {
 		ok := quoted || strings.TrimSpace(sep) != ""
 		r.Check(ok, "model.Params: elements joined with whitespace are quoted", e.InstrPos(ci),
 			"parameters are recorded joined by a blank without quoting: a value containing a blank (\"hello world\") is re-parsed as two parameters on retry / restart")
+	}
+	// whatever quoting the recorder applies, the parameter parser must undo exactly that:
+	// Go quoting (strconv.Quote, %q) escapes backslashes and control bytes as well, which
+	// only strconv.Unquote reverses; the parser of the dag package strips the quotes and
+	// turns \" back into " and nothing else
+	var goQuote []ssa.CallInstruction
+	for _, f := range e.withPkgHelpers(fn) {
+		for _, c2 := range ir.CallsIn(f, func(c *ssa.CallCommon) bool {
+			return ir.IsCallTo(c, "strconv.Quote", "strconv.QuoteToASCII", "strconv.AppendQuote", "fmt.Sprintf")
+		}) {
+			if ir.IsCallTo(c2.Common(), "fmt.Sprintf") {
+				if f, ok := ir.ConstString(c2.Common().Args[0]); !ok || !strings.Contains(f, "%q") {
+					continue
+				}
+			}
+			goQuote = append(goQuote, c2)
+		}
+	}
+	readerUnquotes := false
+	if sp := e.P.Pkg(dagRel); sp != nil {
+		for _, f := range e.RepoFuncsSorted() {
+			if rootFn(f).Package() == sp && len(ir.CallsIn(f, func(c *ssa.CallCommon) bool { return ir.IsCallTo(c, "strconv.Unquote") })) > 0 {
+				readerUnquotes = true
+			}
+		}
+	}
+	if len(goQuote) == 0 {
+		r.OK("model.Params: the recorder applies no quoting the parameter parser does not undo", e.Pos(fn.Pos()), "no Go-syntax quoting in the recorder")
+	}
+	for _, q := range goQuote {
+		r.Check(readerUnquotes, "model.Params: the recorder applies no quoting the parameter parser does not undo", e.InstrPos(q),
+			"the recorded parameter string is quoted in Go syntax (backslashes and control bytes escaped) but the parameter parser only strips the quotes and un-escapes \\\": a value containing a backslash comes back doubled on retry / restart, and doubles again with every further retry")
 	}
 }
